@@ -165,6 +165,9 @@ class PStr(View):
     def sym_method(self, I, name, args, kwargs):
         if name == 'reverse_complement' and not args:
             return self.revcomp()
+        if name == 'complement' and not args:
+            n, g = self._len, self._get
+            return PStr(n, lambda i: cmpl(g(i)), tag=f'c({self.tag})', kind=self.kind)
         if name in ('startswith', 'endswith') and isinstance(args[0], PStr):
             o = args[0]
             n, m = _z(self._len), _z(o._len)
